@@ -51,6 +51,21 @@ stop_watch Message::_codec_timings(Message::sw__max);
 unsigned MessageBase::_tabsize = defaults::tabsize;
 
 //-------------------------------------------------------------------------------------------------
+namespace
+{
+	/// Field number of a decoded tag. Field numbers have 16 bits; a tag that does not fit is given as 0, which is
+	/// no field number, so that it is treated as unknown instead of being truncated (65580 is not 44).
+	inline unsigned short tag_to_fnum(const char *tag)
+	{
+		unsigned val(0);
+		for (; *tag; ++tag)
+			if ((val = val * 10 + (*tag - '0')) > 0xffff)
+				return 0;
+		return static_cast<unsigned short>(val);
+	}
+}
+
+//-------------------------------------------------------------------------------------------------
 unsigned MessageBase::extract_header(const f8String& from, char *len, char *mtype)
 {
 	const char *dptr(from.data());
@@ -97,7 +112,7 @@ unsigned MessageBase::decode(const f8String& from, unsigned s_offset, unsigned i
 
 	for (unsigned result; s_offset <= fsize && (result = extract_element(dptr + s_offset, fsize - s_offset, tag, val));)
 	{
-		unsigned short tv(fast_atoi<unsigned short>(tag));
+		unsigned short tv(tag_to_fnum(tag));
 		Presence::const_iterator itr(_fp.get_presence().find(tv));
 		if (itr == _fp.get_presence().end())
 		{
@@ -155,7 +170,7 @@ unknown_field:
 				throw MissingMandatoryField("Unable to extract fixed width field");
 
 			const unsigned short lasttv(tv);
-			tv = fast_atoi<unsigned short>(tag);
+			tv = tag_to_fnum(tag);
 			if ((itr = _fp.get_presence().find(tv)) == _fp.get_presence().end())
 				goto unknown_field;
 			if (itr->_ftype != FieldTrait::ft_data || lasttv + 1 != tv) // next field must be data, tag must be 1 greater than length tag
@@ -193,7 +208,7 @@ unsigned MessageBase::decode_group(GroupBase *grpbase, const unsigned short fnum
 
 		for (unsigned pos(0); s_offset < fsize && (result = extract_element(dptr + s_offset, fsize - s_offset, tag, val));)
 		{
-			const unsigned tv(fast_atoi<unsigned>(tag));
+			const unsigned short tv(tag_to_fnum(tag));
 			Presence::const_iterator itr(grp->_fp.get_presence().end());
 			if (grp->_fp.get(tv, itr, FieldTrait::present))	// already present; next group?
 				break;
